@@ -408,6 +408,13 @@ def _cmp_bound(ifs, ex, tu, target, single=None):
             continue
         k = literal_value(_expand_local(r, single))
         if k is None:
+            # a named constant of the file / namespace (constexpr std::size_t max_label_length = 255;)
+            rr0 = strip(_expand_local(r, single), explicit=True)
+            if rr0.get('kind') == 'DeclRefExpr':
+                d0 = tu.ids.get((rr0.get('referencedDecl') or {}).get('id')) if hasattr(tu, 'ids') else None
+                if d0 is not None and d0.get('kind') == 'VarDecl' and ('const' in (d0.get('type') or '') or d0.get('constexpr')):
+                    k = literal_value(d0)
+        if k is None:
             # numeric_limits<uint8_t>::max()
             rr = strip(r, explicit=True)
             if rr.get('kind') == 'CallExpr' and 'unsigned char' in (rr.get('type') or '') + \
@@ -1113,12 +1120,30 @@ def _root_param(g, obj):
     return idx[0]
 
 
+def _base_of(a):
+    """One step from a member access / dereference to the object it is made on: x.m -> x, p->m -> p (smart pointer
+    and std::optional included: operator->, operator*, value()), or None."""
+    a = strip(a, explicit=True)
+    k = a.get('kind')
+    c = children(a)
+    if k == 'MemberExpr' and c:
+        return strip(c[0], explicit=True)
+    if k == 'CXXOperatorCallExpr' and len(c) == 2 and \
+            (strip(c[0]).get('referencedDecl') or {}).get('name') in ('operator->', 'operator*'):
+        return strip(c[1], explicit=True)
+    if k == 'UnaryOperator' and a.get('opcode') == '*' and c:
+        return strip(c[0], explicit=True)
+    if k == 'CXXMemberCallExpr' and len(c) == 1 and strip(c[0]).get('name') in ('value', 'get') and children(strip(c[0])):
+        return strip(children(strip(c[0]))[0], explicit=True)
+    return None
+
+
 def _is_place(a):
     """a names an object (variable, member of one, element reached by a reference): what a guard written before
     the call tested is the very value the call passes."""
     a = strip(a, explicit=True)
-    while a.get('kind') == 'MemberExpr' and children(a):
-        a = strip(children(a)[0], explicit=True)
+    while _base_of(a) is not None:
+        a = _base_of(a)
     return a.get('kind') in ('DeclRefExpr', 'CXXThisExpr')
 
 
@@ -1127,15 +1152,15 @@ def _unchanged_between(h, guard, call, arg):
     the object `arg` names or calls a non-const member on it."""
     root = strip(arg, explicit=True)
     names = []
-    while root.get('kind') == 'MemberExpr' and children(root):
+    while _base_of(root) is not None:
         names.append(root.get('name'))
-        root = strip(children(root)[0], explicit=True)
+        root = _base_of(root)
     rid = (root.get('referencedDecl') or {}).get('id') if root.get('kind') == 'DeclRefExpr' else None
 
     def same_root(e):
         e = strip(e, explicit=True)
-        while e.get('kind') == 'MemberExpr' and children(e):
-            e = strip(children(e)[0], explicit=True)
+        while _base_of(e) is not None:
+            e = _base_of(e)
         if rid is None:
             return e.get('kind') == 'CXXThisExpr'
         return e.get('kind') == 'DeclRefExpr' and (e.get('referencedDecl') or {}).get('id') == rid
